@@ -65,10 +65,11 @@ PROPS["C08"] = {
 PROPS["C17"] = {
     "modules": ["C17", "C17Bound"], "required_theorems": ["event_batch_agrees", "C17_holds", "queue_bound", "step_q"], "monitors": ["C17"],
     "fields": ["ret", "net", "sj", "sje", "pj"],
-    "campaign": camp([("lifecycle", 500), ("mixed", 300), ("rollback", 200), ("release", 150), ("chaos", 150), ("events", 250), ("lifecycle@http", 200), ("strings@http", 100)],
-                     [("lifecycle", 8000), ("mixed", 5000), ("rollback", 3000), ("release", 2000), ("chaos", 2000), ("strings", 2000), ("events", 4000),
+    "campaign": camp([("lifecycle", 500), ("mixed", 300), ("rollback", 200), ("release", 150), ("chaos", 150), ("events", 250), ("conc", 200), ("lifecycle@http", 200), ("strings@http", 100)],
+                     [("lifecycle", 8000), ("mixed", 5000), ("rollback", 3000), ("release", 2000), ("chaos", 2000), ("strings", 2000), ("events", 4000), ("conc", 3000),
                       ("lifecycle@http", 2500), ("strings@http", 1500), ("mixed@http", 1500)]),
-    "assumptions": ["in the @http slices the event fields are read from the JSON the library really put on the wire (its own serialiser, real HTTP on loopback)", "events of spawned threads are awaited through the hook's live-thread counter; their order relative to later calls is not asserted"],
+    "assumptions": ["in the @http slices the event fields are read from the JSON the library really put on the wire (its own serialiser, real HTTP on loopback)", "events of spawned threads are awaited through the hook's live-thread counter; their order relative to later calls is not asserted",
+                    "two-thread episodes (slice conc): only the download-event clause is judged on their network log (episodeNetChecks), on the real library's runs; the section machine of the model carries no network actions, the theorem for the clause is the sequential C17_holds"],
 }
 
 DMG_Q = [("damage", 500), ("signing", 500), ("mixed", 300), ("chaos", 200), ("lifecycle", 150)]
